@@ -3,6 +3,8 @@ package checks
 import (
 	"encoding/json"
 	"fmt"
+	"os"
+	"runtime"
 	"strings"
 
 	"verif/fw"
@@ -292,6 +294,34 @@ func c17Exec(cs c17Case) (*fw.Violation, *harness.Server) {
 		// of the server's queues holds), then goes away
 		h.Send(peer.Preface)
 		h.SendFrames(peer.Settings())
+		if strings.Contains(cs.Flood, "error+") {
+			// a connection error (raised on the read loop: PING of 7 octets; or on the stream loop: RST_STREAM on an
+			// idle id), and right behind it in the same segment more frames than the hand-off channels hold
+			b := peer.Frame{Type: peer.TPing, Payload: make([]byte, 7)}.Bytes()
+			if strings.HasPrefix(cs.Flood, "stream-loop-") {
+				b = peer.RstStream(99, 8).Bytes()
+			}
+			for i := 0; i < cs.K; i++ {
+				switch strings.TrimPrefix(cs.Flood, "stream-loop-") {
+				case "error+window-updates":
+					b = peer.WindowUpdate(0, 1).Append(b)
+				case "error+settings":
+					b = peer.Settings(peer.Setting{ID: peer.SInitialWindowSize, Val: uint32(1000 + i)}).Append(b)
+				case "error+pings":
+					b = peer.Ping(false, [8]byte{byte(i)}).Append(b)
+				case "error+requests":
+					id := uint32(2*i + 1)
+					b = peer.Headers(id, reqBlock(id, "GET"), peer.HeadersOpt{EndStream: true, EndHeaders: true, Pad: -1}).Append(b)
+				}
+			}
+			if cs.Late {
+				h.C.TakeAll()
+				h.C.SetOutCapacity(1)
+			}
+			h.Send(b)
+			shape = "flood-" + cs.Flood
+			break
+		}
 		h.C.TakeAll()
 		h.C.SetOutCapacity(1)
 		for i := 0; i < cs.K && !h.Returned; i++ {
@@ -335,6 +365,10 @@ func c17Exec(cs c17Case) (*fw.Violation, *harness.Server) {
 		return mk("pool-misuse", shape, strings.Join(ev, "; ")), h
 	}
 	if !h.Returned {
+		if os.Getenv("C17_DEBUG") != "" {
+			buf := make([]byte, 1<<20)
+			fmt.Println(string(buf[:runtime.Stack(buf, true)]))
+		}
 		return mk("serveconn-does-not-return", shape, "the peer is gone, every handler has returned, every armed timer has fired: ServeConn has not returned"), h
 	}
 	if live := h.S.LiveNames(); len(live) > 0 {
@@ -499,7 +533,7 @@ func runC17(c *fw.Ctx) {
 	}
 	c.Bound["grid_frames"] = ng
 	c.Family("grid")
-	for _, fl := range []string{"ping", "settings", "requests"} {
+	for _, fl := range []string{"ping", "settings", "requests", "error+window-updates", "error+settings", "error+pings", "error+requests", "stream-loop-error+window-updates", "stream-loop-error+settings", "stream-loop-error+pings", "stream-loop-error+requests"} {
 		for _, k := range []int{1, 10, 127, 128, 129, 140, 300} {
 			for _, late := range []bool{false, true} {
 				do(c17Case{Family: "flood", Flood: fl, K: k, Late: late})
